@@ -44,6 +44,58 @@ def holdsAddrs (msgs : List AddrMsg) (failed : Bool) (r : Res SysIP) : Bool :=
     | .ok l => zipAll msgs l
     | _ => false
 
+/-! ### the documented behaviour (what the properties ask of the wildcards, at this layer)
+
+  C13 and C15 list IPv4 addresses and routes among what the wildcards *exclude*, and C14 asks for
+  "an IPv6 address currently on the interface". The kernel delivers IPv4-mapped IPv6 addresses and
+  routes in AF_INET6 dumps (`ip -6 addr add ::ffff:192.0.2.9/128 dev eth0`, the
+  `unreachable ::ffff:0.0.0.0/96 dev lo` route many distributions install) and, for an address
+  with a peer, the interface's own address in IFA_LOCAL. So, at this layer:
+
+    * an IPv4-mapped entry is not a broken invariant: it is left out or passed on (the plug-ins
+      exclude it); the call does not panic (finding F-27: it does, and the pinned suite's
+      `invalid_IPv4` cases demand exactly that);
+    * the address of an entry is the interface's own (IFA_LOCAL when present) (finding F-28). -/
+
+def mapped (ip : IP) : Bool := ip.valid && !ip.v4 && ip.val / 2^32 == 0xffff
+
+def wellFormedAddrDoc (m : AddrMsg) : Bool :=
+  m.isAddr && m.family == 10 && m.hasAttrs && m.ip.valid && !m.ip.v4 &&
+  (match m.loc with | some l => l.valid && !l.v4 | none => true)
+
+/-- the interface's own address -/
+def ownAddr (m : AddrMsg) : IP := m.loc.getD m.ip
+
+def entryOfDoc (m : AddrMsg) (a : SysIP) : Bool :=
+  entryOf { m with ip := ownAddr m } a
+
+/-- one entry per message in dump order; an IPv4-mapped one may be left out -/
+def zipAllDoc : List AddrMsg → List SysIP → Bool
+  | [], [] => true
+  | [], _ :: _ => false
+  | m :: ms, [] => mapped (ownAddr m) && zipAllDoc ms []
+  | m :: ms, a :: as =>
+    (entryOfDoc m a && zipAllDoc ms as) || (mapped (ownAddr m) && zipAllDoc ms (a :: as))
+
+def holdsAddrsDoc (msgs : List AddrMsg) (failed : Bool) (r : Res SysIP) : Bool :=
+  if failed || msgs.isEmpty then r == .nil failed
+  else if !msgs.all wellFormedAddrDoc then r == .panic
+  else match r with
+    | .ok l => zipAllDoc msgs l
+    | .nil e => !e && zipAllDoc msgs []      -- every message was IPv4-mapped and left out
+    | .panic => false
+
+/-- class of finding F-27 (addresses): an otherwise well-formed dump contains an IPv4-mapped
+    address and the implementation panicked -/
+def mappedAddrClass (msgs : List AddrMsg) (failed : Bool) (r : Res SysIP) : Bool :=
+  !failed && msgs.all wellFormedAddrDoc && msgs.any (fun m => mapped m.ip || mapped (ownAddr m)) && r == .panic
+
+/-- class of finding F-28: a well-formed dump contains an address with a peer and the result is
+    what the source-faithful reading gives — the peer's address in place of the interface's own -/
+def peerClass (msgs : List AddrMsg) (failed : Bool) (r : Res SysIP) : Bool :=
+  !failed && msgs.all wellFormedAddr && msgs.all wellFormedAddrDoc &&
+  msgs.any (fun m => ownAddr m != m.ip) && holdsAddrs msgs failed r
+
 def wellFormedRoute (m : RouteMsg) : Bool :=
   m.isRoute && m.family == 10 && m.dst.valid && !m.dst.v4 && m.dst.val / 2^32 != 0xffff
 
@@ -65,8 +117,33 @@ def holdsRoutes (msgs : List RouteMsg) (failed : Bool) (r : Res SysRoute) : Bool
 
 /-- the documented behaviour: a route message without destination attribute and with destination
     length 0 is the default route `::/0` (and is a route like any other) -/
-def holdsRoutesDoc (msgs : List RouteMsg) (failed : Bool) (r : Res SysRoute) : Bool :=
+def holdsRoutesDocStrict (msgs : List RouteMsg) (failed : Bool) (r : Res SysRoute) : Bool :=
   holdsRoutes (msgs.map (normRoute true)) failed r
+
+def wellFormedRouteDoc (m : RouteMsg) : Bool := m.isRoute && m.family == 10 && m.dst.valid && !m.dst.v4
+
+/-- one entry per message in dump order; an IPv4-mapped route may be left out -/
+def zipAllRDoc : List RouteMsg → List SysRoute → Bool
+  | [], [] => true
+  | [], _ :: _ => false
+  | m :: ms, [] => mapped m.dst && zipAllRDoc ms []
+  | m :: ms, a :: as =>
+    (routeOf m a && zipAllRDoc ms as) || (mapped m.dst && zipAllRDoc ms (a :: as))
+
+/-- …and an IPv4-mapped route (`unreachable ::ffff:0.0.0.0/96 dev lo`) is not a broken invariant -/
+def holdsRoutesDoc (msgs : List RouteMsg) (failed : Bool) (r : Res SysRoute) : Bool :=
+  let ms := msgs.map (normRoute true)
+  if failed || ms.isEmpty then r == .nil failed
+  else if !ms.all wellFormedRouteDoc then r == .panic
+  else match r with
+    | .ok l => zipAllRDoc ms l
+    | .nil e => !e && zipAllRDoc ms []
+    | .panic => false
+
+/-- class of finding F-27 (routes) -/
+def mappedRouteClass (msgs : List RouteMsg) (failed : Bool) (r : Res SysRoute) : Bool :=
+  let ms := msgs.map (normRoute true)
+  !failed && ms.all wellFormedRouteDoc && ms.any (fun m => mapped m.dst) && r == .panic
 
 /-- class of finding F-18: the dump is otherwise well formed and contains a default route
     without `RTA_DST`, and the implementation panicked -/
